@@ -498,8 +498,14 @@ def _bind_call(call: ast.Call, fn, position: int) -> dict:
     params = list(args.posonlyargs) + list(args.args)
     if fn.cls is not None and not fn.is_static and isinstance(call.func, ast.Attribute):
         owner = ast.unparse(call.func.value).split('.')[-1]
+        named = owner == fn.cls.qn.rsplit('.', 1)[-1]
+        program = getattr(fn.module, 'program', None)
+        if not named and program is not None:
+            # ... also through the name of a subclass that inherits the method
+            named = any(info.name == owner and fn.cls.qn in info.mro
+                        for info in program.classes.values())
         explicit_self = isinstance(call.func.value, (ast.Name, ast.Attribute)) and \
-            owner == fn.cls.qn.rsplit('.', 1)[-1] and len(call.args) >= 1
+            named and len(call.args) >= 1
         if not explicit_self:  # `Base.method(self, a)` names every parameter
             params = params[1:]
     bindings = {}
